@@ -8,14 +8,13 @@ THEOREMS = [
     "GoaktVerif.C11.inv_end",
     "GoaktVerif.C11.step_ok",
     "GoaktVerif.C11.run_ok",
-    "GoaktVerif.C11.witness_outputs",
+    "GoaktVerif.C11.witness_stop_race_fixed",
+    "GoaktVerif.C11.witness_name_index_fixed",
     "GoaktVerif.C11.C11_refuted",
-    "GoaktVerif.C11.C11_refuted_name_index",
-    "GoaktVerif.C11.C11_refuted_orphan_child",
     "GoaktVerif.C11.C11_partial",
 ]
 INPKG = ["actor/zz_verif_c11.go"]
-TIMEOUT = 900
+TIMEOUT = 1500
 REPO = os.environ.get("VERIF_REPO", "/repo")
 MANIFEST = {
     "level_text": "Kernel-checked theorems over a phase-level machine of name-based spawning (operations = begin/end of Spawn, SpawnNamedFromFunc, SpawnChild and of Shutdown, full calls, concurrent groups; every interleaving of any number of callers is an operation sequence): the full property is REFUTED (C11_refuted: a spawn racing a stop of the same path returns a non-running PID, leaves a second instance running outside the tree and the count, and lets two instances of the path run at once); C11_partial proves, for every operation sequence without a stop in flight, that every caller receives a running PID, callers of one path receive the same PID, at most one actor per path runs at any time and the actor count equals the number of running user actors (inductive invariant, step_ok/run_ok). The model is tied to the code by running the same scripts on a real actor system with gates inside PreStart/PostStop that realise the phases deterministically; outputs and final tree/count/live-instance digests must coincide.",
@@ -28,7 +27,7 @@ TRUSTED = [
     "context cancellation and the retry-once path of runSpawnActivation, remote spawns and cluster publication are not modelled",
 ]
 RULE = ("scripts of 2-14 operations over top-level names a,b,c and child names x,y: full/held spawns of the three kinds, concurrent groups of 2-4 spawns, "
-        "full/held stops; non-trivial = the harness produced a digest; distinct by (case, output)")
+        "followers of a held spawn (waiting, cancelled, joined), full/held stops; non-trivial = the harness produced a digest; distinct by (case, output)")
 EXPLANATION = "Each script runs on a fresh real actor system and on the Lean model; per-operation results (PID identity by first appearance, running flag, errors) and the final digest (tree, actor count, live instances, instances started, paths that had two live instances) must be equal."
 
 SRC_FACTS = {
@@ -54,22 +53,45 @@ def _req(rng, tops_only=False):
     return "S." + rng.choice(KID)          # a top-level actor named like a child (name index quirk)
 
 
-def _case(rng, stops=True):
+def _follower_of(rng, r):
+    """a spawn request that shares the single flight of the held request r (same path, any kind that uses that path)"""
+    f = r.split(".")
+    if f[0] == "C":
+        return "C." + ".".join(f[1:])
+    return rng.choice(["S", "F"]) + "." + f[1]
+
+
+def _case(rng, stops=True, followers=True):
     n = rng.randint(2, 14)
     toks = []
-    open_s, open_k = [], []
+    open_s, open_k, fol = [], [], []
     for _ in range(n):
         k = rng.random()
-        if k < 0.40:
+        if k < 0.36:
             toks.append(_req(rng))
-        elif k < 0.50:
+        elif k < 0.46:
             r = _req(rng)
             toks.append("b" + r)
             open_s.append(r)
-        elif k < 0.60 and open_s:
+        elif k < 0.55 and open_s:
             r = open_s.pop(rng.randrange(len(open_s)))
             toks.append("e" + r)
-        elif k < 0.70 and not open_k:
+        elif k < 0.64 and open_s and followers:
+            # followers of a held spawn: a second caller, possibly cancelled, then a third one
+            r = rng.choice(open_s)
+            q = _follower_of(rng, r)
+            toks.append("f" + q)
+            fol.append(q)
+            if rng.random() < 0.5:
+                toks.append("c" + q)
+                fol.remove(q)
+                q2 = _follower_of(rng, r)
+                toks.append("f" + q2)
+                fol.append(q2)
+        elif k < 0.68 and fol:
+            q = fol.pop(rng.randrange(len(fol)))
+            toks.append(rng.choice(["c", "j"]) + q)
+        elif k < 0.75 and not open_k:
             m = rng.randint(2, 4)
             rs, used = [], {}
             for _ in range(m):
@@ -86,10 +108,10 @@ def _case(rng, stops=True):
                 rs.append(r)
             if rs:
                 toks.append("P(" + ",".join(rs) + ")")
-        elif stops and k < 0.82:
+        elif stops and k < 0.85:
             r = _req(rng)
             toks.append("K." + ".".join(r.split(".")[1:]))
-        elif stops and k < 0.91:
+        elif stops and k < 0.92:
             r = _req(rng)
             p = ".".join(r.split(".")[1:])
             toks.append("bK." + p)
@@ -103,19 +125,22 @@ def _case(rng, stops=True):
     if rng.random() < 0.85:
         for r in open_s:
             toks.append("e" + r)
+        for q in sorted(set(fol)):
+            toks.append("j" + q)
         for p in open_k:
             toks.append("eK." + p)
     return " ".join(toks)
 
 
+# every follower operation costs the harness its grace period (0.3 s): they are generated in a fraction of the scripts
 def gen_cases(rng, tier):
-    n = 300 if tier == "quick" else 5000
-    return list(SRC_FACTS) + [_case(rng) for _ in range(n)]
+    n, pf = (300, 0.25) if tier == "quick" else (5000, 0.06)
+    return list(SRC_FACTS) + [_case(rng, followers=rng.random() < pf) for _ in range(n)]
 
 
 def search_cases(rng, tier):
     n = 1500 if tier == "quick" else 8000
-    return [_case(rng, stops=False) for _ in range(n)] + [_case(rng) for _ in range(n)]
+    return [_case(rng, stops=False, followers=rng.random() < 0.06) for _ in range(n)] + [_case(rng, followers=rng.random() < 0.06) for _ in range(n)]
 
 
 def compare(case, impl, model):
@@ -204,12 +229,8 @@ def _parent_stopped_while_child_held(case):
 def classify(case, impl, why):
     if not why or not why.startswith("bad "):
         return None
-    if _spawn_in_stop_window(case):
-        return "C11-F1"
     if _parent_stopped_while_child_held(case):
         return "C11-F3"
-    if _shared_name(case):
-        return "C11-F2"
     return None
 
 
@@ -227,4 +248,6 @@ def tag(case, impl):
         t.append("parallel")
     if re.search(r"\bb[SFC]\.", case):
         t.append("held-spawn")
+    if re.search(r"\bf[SFC]\.", case):
+        t.append("follower")
     return "+".join(t) or "sequential"
